@@ -24,7 +24,9 @@
 (*    and the stream must be delimited by the format itself: the combination  *)
 (*    EndOfBlock = false with /Rows = 0 is excluded, because then the zero    *)
 (*    padding bits of the last byte cannot be told from further rows, and so  *)
-(*    is EndOfBlock = false with fewer rows written than /Rows.               *)
+(*    is EndOfBlock = false with fewer rows written than /Rows; at most 65536 *)
+(*    rows (the decoder bounds its output by the library's image limits,      *)
+(*    internal/limits.MaxImageHeight -- see property C08).                    *)
 (* The generators honour these exclusions; the harness never reports a case   *)
 (* outside the admissible shape.                                              *)
 EXTENDS Naturals, Sequences, FiniteSets, TLC
